@@ -3,8 +3,8 @@ import itertools, json, os, random, struct
 from vlib import core, corr
 
 AREA = "C08"
-MODULES = ["TinsModel.Props.C08"]
-AUDIT = "Audit/C08.lean"
+MODULES = ["TinsModel.Props.C08", "TinsModel.Props.Limits.C08"]   # + the constants / limits tied to the source (translator/gen_limits.py)
+AUDIT = ["Audit/C08.lean", "Audit/LimitsC08.lean"]
 LEVEL = "proof"
 HARNESS = "c08_reasm"
 HARNESS_FLAGS = ["-fno-access-control"]          # the harness prints IPv4Reassembler::streams_.size()
@@ -342,6 +342,8 @@ def build():
 
 
 def run(chk):
+    from translator import gen_limits
+    gen_limits.main([])          # Gen/Limits.lean: constants and limits read from the current source
     problems = chk.prove(MODULES, AUDIT, want_leanchecker=(chk.tier == "thorough"))
     exe, err = build()
     if exe is None:
